@@ -19,6 +19,20 @@ Theorem C12_whole : forall c outs ops, reliable outs = true ->
 Proof. exact whole_thm. Qed.
 Print Assumptions C12_whole.
 
+(* "the configured size" is the Size field itself whenever it is positive -- not rounded up to a page,
+   a power of two or any other granularity, for small and for large sizes alike; only 0 (zap's default,
+   256 KiB) and negative sizes (bufio's default, 4096) are replaced *)
+Theorem C12_size_configured : forall c : Z,
+  ((0 < c)%Z -> Z.of_nat (eff_size c) = c) /\ (c = 0%Z -> eff_size c = 256 * 1024) /\ ((c < 0)%Z -> eff_size c = 4096).
+Proof. exact size_configured_thm. Qed.
+Print Assumptions C12_size_configured.
+
+(* so for every positive Size, at every point of every history, at most Size bytes are held back *)
+Theorem C12_held_back_configured : forall c outs ops, (0 < c)%Z -> reliable outs = true ->
+  (Z.of_nat (length (buf (w (fst (run (init c outs) ops))))) <= c)%Z.
+Proof. exact held_configured_thm. Qed.
+Print Assumptions C12_held_back_configured.
+
 (* no byte lost, duplicated or reordered *)
 Theorem C12_stream : forall c outs ops, reliable outs = true ->
   let '(s, tr) := run (init c outs) ops in
@@ -166,6 +180,14 @@ Theorem C12_oracle_sound : forall c ops tr alive, strong_ok c ops tr alive = tru
   Forall2 res_ok ops (map fst tr) /\ alive = is_running (spec_phase ops).
 Proof. exact oracle_sound. Qed.
 Print Assumptions C12_oracle_sound.
+
+(* and it judges every point of the history, not only its end: after each of the first n operations
+   (any n) the sink holds whole-write groups and what is held back is at most the configured size *)
+Theorem C12_oracle_sound_every_point : forall c ops tr alive n, strong_ok c ops tr alive = true ->
+  exists groups rest, accepted (firstn n ops) = concat groups ++ rest /\
+    received (all_evs (firstn n tr)) = map (@concat byte) groups /\ length (concat rest) <= eff_size c.
+Proof. exact oracle_sound_every_point. Qed.
+Print Assumptions C12_oracle_sound_every_point.
 
 (* whatever the lifecycle oracle accepts (any sink) -- per-operation goroutine liveness, tick results and
    the final tick as recorded from the real implementation -- is the documented lifecycle: the flush
